@@ -184,3 +184,31 @@ CLAIMED["C04"] = dict(
         "of dict_repeat, leak checking of full decode runs. dict_repeat content/frame parts are thorough-tier only.")
 for _p in ("C04", "C09"):
     NOT_APPLICABLE.pop(_p, None)
+CLAIMED["C08"] = dict(
+   text="Thread-modular decision on the real code: (1) the encoder's worker thread function (worker_start/worker_encode) is "
+        "executed alone against rely/guarantee pthread stubs - at every lock acquisition and condition wait the main thread "
+        "may change the shared fields in any way its code allows, at every unlock the worker's changes, lock discipline and "
+        "signal discipline (no lost wake-up) and the hand-over protocol (free list only after IDLE is published, EXIT never "
+        "overridden, first error only) are asserted; this covers every interleaving and any number of threads as far as "
+        "these per-critical-section conditions go. (2) The shared output queue as inductive steps from arbitrary states: "
+        "in-order delivery from the oldest buffer only, recycled buffers clean, re-initialisation leaves no stale read "
+        "offset, counters equal the structure.",
+   note="This is NOT an interleaving exploration: deadlock freedom, output equality with the single-threaded encoder and "
+        "determinism across thread counts follow from the checked discipline only by the argument in DESIGN.md. The main-thread "
+        "side (stream_encode_mt, get_thread, wait_for_work, threads_stop/end, progress reporting, flush/barrier return rule) "
+        "is not yet covered; rely relations are stated in the harness, unlocked reads are not detected. Bounds: one job, "
+        "two unproductive waits, one stop request.")
+CLAIMED["C07"] = dict(
+   text="Thread-modular decision on the real worker_decoder(): executed alone against rely/guarantee pthread stubs (main "
+        "thread may stop, end, feed input, enable partial output at every lock/wait); asserted at every unlock and wait: "
+        "single-mutex discipline, state only RUN->IDLE and EXIT never overridden, positions published under the coder mutex "
+        "with a signal and CURRENT whenever the worker sleeps with partial output enabled (stall detection for truncated "
+        "input), finished buffer published once and never touched again, first error only, free list only after a "
+        "successfully finished Block with exact memory accounting, no use of freed input, exit only on EXIT. Plus the "
+        "shared output queue inductive steps.",
+   note="Not an interleaving exploration. NOT covered: the main-thread side (stream_decode_mt sequencing, "
+        "read_output_and_wait, threads_stop/end, memlimit_threading/memlimit_stop decisions, timeout handling), so equality "
+        "with the single-threaded decoder and termination are argued from the checked discipline, not decided. Bounds: one "
+        "Block, three decoder calls, two unproductive waits.")
+for _p in ("C07", "C08"):
+    NOT_APPLICABLE.pop(_p, None)
